@@ -1453,6 +1453,212 @@ pub fn x509_wrap(tbs: &[u8], sig: &[u8], alg_null: bool) -> Vec<u8> {
     seq(&[tbs.to_vec(), alg_sha256_rsa(alg_null), bits(sig, 0)])
 }
 
+//============ 6. Foreign dress for X.509 certificates ============================
+
+/// Re-dresses a certificate the way another (conforming) implementation might
+/// have written it, without changing what it says: other extension order,
+/// additional non-critical extensions, optional parts the library's builder
+/// never writes. The TBS is re-encoded and signed again with pool key
+/// `sign_key`. Every choice is legal under RFC 5280 / 6487 / 3779 / 7318.
+#[derive(Clone, Debug, Default, PartialEq, Eq, Hash, serde::Serialize, serde::Deserialize)]
+pub struct Dress {
+    /// 0 keeps the extension order; otherwise the seed of a permutation
+    /// (1 = reversed, 2 = rotated by one).
+    #[serde(default)]
+    pub perm: u32,
+    /// unknown non-critical extensions to insert: (position, payload length)
+    #[serde(default)]
+    pub unknown: Vec<(u8, u16)>,
+    /// a CPS policy qualifier after the policy identifier (RFC 7318)
+    #[serde(default)]
+    pub cps: bool,
+    /// further (https) URIs in the CRL distribution point: 1 before, 2 after, 3 both
+    #[serde(default)]
+    pub crldp_https: u8,
+    /// SIA: bit 0 an https twin in front of every entry, bit 1 an access
+    /// description with an unknown method first, bit 2 one last, bit 3 a second
+    /// rsync entry for every method after the first one (first one counts)
+    #[serde(default)]
+    pub sia: u8,
+    /// single AS numbers written as ranges min = max (which of them: bit mask)
+    #[serde(default)]
+    pub as_id_as_range: u32,
+    /// algorithm identifiers without the NULL parameters (inner and outer)
+    #[serde(default)]
+    pub no_null: bool,
+}
+
+impl Dress {
+    pub fn is_plain(&self) -> bool {
+        *self == Dress::default()
+    }
+}
+
+const OID_CERT_POLICIES: &[u8] = &[0x55, 0x1D, 0x20];
+const OID_CRLDP: &[u8] = &[0x55, 0x1D, 0x1F];
+const OID_SIA: &[u8] = &[0x2B, 0x06, 0x01, 0x05, 0x05, 0x07, 0x01, 0x0B];
+const OID_AS_RES: &[u8] = &[0x2B, 0x06, 0x01, 0x05, 0x05, 0x07, 0x01, 0x08];
+const OID_AS_RES_V2: &[u8] = &[0x2B, 0x06, 0x01, 0x05, 0x05, 0x07, 0x01, 0x1D];
+const OID_QT_CPS: &[u8] = &[0x2B, 0x06, 0x01, 0x05, 0x05, 0x07, 0x02, 0x01];
+const OID_AD_UNKNOWN: &[u8] = &[0x2B, 0x06, 0x01, 0x05, 0x05, 0x07, 0x30, 0x63];
+
+fn splitmix(x: &mut u64) -> u64 {
+    *x = x.wrapping_add(0x9E37_79B9_7F4A_7C15);
+    let mut z = *x;
+    z = (z ^ (z >> 30)).wrapping_mul(0xBF58_476D_1CE4_E5B9);
+    z = (z ^ (z >> 27)).wrapping_mul(0x94D0_49BB_1331_11EB);
+    z ^ (z >> 31)
+}
+
+/// Applies `f` to the DER value inside the extnValue OCTET STRING of every
+/// extension with the given OID.
+fn edit_ext_value(exts: &mut [Node], oid_content: &[u8], f: &mut dyn FnMut(&mut Node)) -> Result<(), String> {
+    for e in exts.iter_mut() {
+        let is = e.kids().first().and_then(|o| o.prim_bytes()).map(|b| b == oid_content).unwrap_or(false);
+        if !is {
+            continue;
+        }
+        let Some(kids) = e.kids_mut() else { continue };
+        let Some(val) = kids.last_mut() else { continue };
+        let Some(bytes) = val.prim_bytes_mut() else { return Err("extnValue is not primitive".into()) };
+        let mut inner = parse_exact(bytes).map_err(|e| format!("extension value: {}", e))?;
+        f(&mut inner);
+        *bytes = inner.encode();
+    }
+    Ok(())
+}
+
+pub fn dress_cert(der: &[u8], sign_key: usize, d: &Dress) -> Result<Vec<u8>, String> {
+    let mut root = parse_exact(der).map_err(|e| e.to_string())?;
+    let null_outer = !d.no_null;
+    let tbs = root.kids_mut().and_then(|k| k.first_mut()).ok_or("no TBS")?;
+    {
+        let kids = tbs.kids_mut().ok_or("TBS not constructed")?;
+        if d.no_null {
+            // version [0], serial, signature algorithm
+            let alg = kids.get_mut(2).ok_or("no signature algorithm")?;
+            if alg.tag0() != 0x30 {
+                return Err("unexpected TBS layout".into());
+            }
+            if let Some(k) = alg.kids_mut() {
+                k.truncate(1);
+            }
+        }
+        let ext_wrap = kids.iter_mut().find(|k| k.tag0() == 0xA3).ok_or("no extensions")?;
+        let ext_seq = ext_wrap.kids_mut().and_then(|k| k.first_mut()).ok_or("no extension list")?;
+        let exts = ext_seq.kids_mut().ok_or("extension list not constructed")?;
+        if d.cps {
+            edit_ext_value(exts, OID_CERT_POLICIES, &mut |v| {
+                if let Some(info) = v.kids_mut().and_then(|k| k.first_mut()) {
+                    if let Some(k) = info.kids_mut() {
+                        if k.len() == 1 {
+                            let q = seq(&[seq(&[oid(OID_QT_CPS), ia5(b"https://cps.example.net/rpki-cps.html")])]);
+                            if let Ok(n) = parse_exact(&q) {
+                                k.push(n);
+                            }
+                        }
+                    }
+                }
+            })?;
+        }
+        if d.crldp_https != 0 {
+            let mode = d.crldp_https;
+            edit_ext_value(exts, OID_CRLDP, &mut |v| {
+                // SEQ { SEQ { [0] { [0] { [6] uri .. } } } }
+                let names = v
+                    .kids_mut()
+                    .and_then(|k| k.first_mut())
+                    .and_then(|dp| dp.kids_mut())
+                    .and_then(|k| k.first_mut())
+                    .and_then(|dpn| dpn.kids_mut())
+                    .and_then(|k| k.first_mut())
+                    .and_then(|full| full.kids_mut());
+                if let Some(names) = names {
+                    if mode & 1 != 0 {
+                        names.insert(0, Node::prim(0x86, b"https://crl.example.net/first.crl"));
+                    }
+                    if mode & 2 != 0 {
+                        names.push(Node::prim(0x86, b"https://crl.example.net/last.crl"));
+                    }
+                }
+            })?;
+        }
+        if d.sia != 0 {
+            let mode = d.sia;
+            edit_ext_value(exts, OID_SIA, &mut |v| {
+                let Some(list) = v.kids_mut() else { return };
+                let orig: Vec<Node> = list.drain(..).collect();
+                let mut out = Vec::new();
+                if mode & 2 != 0 {
+                    out.push(Node::cons(0x30, vec![Node::prim(0x06, OID_AD_UNKNOWN), Node::prim(0x86, b"rsync://other.example.net/unknown/method/")]));
+                }
+                for ad in orig {
+                    let method = ad.kids().first().cloned();
+                    if mode & 1 != 0 {
+                        if let Some(m) = &method {
+                            out.push(Node::cons(0x30, vec![m.clone(), Node::prim(0x86, b"https://rrdp.example.net/twin/location")]));
+                        }
+                    }
+                    out.push(ad);
+                    if mode & 8 != 0 {
+                        if let Some(m) = &method {
+                            out.push(Node::cons(0x30, vec![m.clone(), Node::prim(0x86, b"rsync://second.example.net/other/place/x.mft")]));
+                        }
+                    }
+                }
+                if mode & 4 != 0 {
+                    out.push(Node::cons(0x30, vec![Node::prim(0x06, OID_AD_UNKNOWN), Node::prim(0x82, b"dns.example.net")]));
+                }
+                *list = out;
+            })?;
+        }
+        if d.as_id_as_range != 0 {
+            let mask = d.as_id_as_range;
+            for o in [OID_AS_RES, OID_AS_RES_V2] {
+                edit_ext_value(exts, o, &mut |v| {
+                    // SEQ { [0] { NULL | SEQ OF (INTEGER | SEQ { INTEGER, INTEGER }) } }
+                    let list = v
+                        .kids_mut()
+                        .and_then(|k| k.iter_mut().find(|n| n.tag0() == 0xA0))
+                        .and_then(|a| a.kids_mut())
+                        .and_then(|k| k.first_mut())
+                        .and_then(|l| l.kids_mut());
+                    if let Some(list) = list {
+                        for (i, item) in list.iter_mut().enumerate() {
+                            if item.tag0() == 0x02 && mask >> (i % 32) & 1 == 1 {
+                                let twin = item.clone();
+                                *item = Node::cons(0x30, vec![twin.clone(), twin]);
+                            }
+                        }
+                    }
+                })?;
+            }
+        }
+        for &(pos, len) in &d.unknown {
+            let at = (pos as usize * (exts.len() + 1)) >> 8;
+            let mut o = vec![0x2B, 0x06, 0x01, 0x04, 0x01, 0x83, 0xE3, 0x5D];
+            o.push(0x01 + (len % 100) as u8);
+            let payload: Vec<u8> = (0..len as usize).map(|i| (i * 7 + pos as usize) as u8).collect();
+            let e = parse_exact(&ext_unknown(&o, false, &payload).encode()).map_err(|e| e.to_string())?;
+            exts.insert(at, e);
+        }
+        match d.perm {
+            0 => {}
+            1 => exts.reverse(),
+            2 => exts.rotate_left(1),
+            p => {
+                let mut st = p as u64;
+                for i in (1..exts.len()).rev() {
+                    let j = (splitmix(&mut st) % (i as u64 + 1)) as usize;
+                    exts.swap(i, j);
+                }
+            }
+        }
+    }
+    let tbs_der = tbs.encode();
+    Ok(x509_sign(&tbs_der, sign_key, null_outer))
+}
+
 //============ self test ==========================================================
 
 /// Sanity checks of the toolkit itself (called from the C02 module once).
